@@ -373,7 +373,7 @@ impl<'a> TypeGenerator<'a> {
 
         let mut ty = self.resolve_type(id)?;
 
-        if ty.path.ident() == Some("Cow".to_string()) {
+        if ty.path.namespace().is_empty() && ty.path.ident() == Some("Cow".to_string()) {
             let inner_ty_id = ty.type_params[0]
                 .ty
                 .ok_or_else(|| {
